@@ -13,6 +13,6 @@ cp /repo/go.sum harness/go.sum 2>/dev/null || true
 ./harness/bin/vh tgen-cmap "$PWD/lean/JSight/Generated/CMapUses.lean" >/dev/null
 ./harness/bin/vh tgen-compat "$PWD/lean/JSight/Generated/CompatTable.lean" >/dev/null
 ./harness/bin/vh tgen-kinds "$PWD/lean/JSight/Generated/KindMatrix.lean" >/dev/null
-(cd lean && lake build JSight Driver jsight-model 2>&1 | grep -E "error|✖|Build completed" || true)
+(cd lean && lake build JSight jsight-model 2>&1 | grep -E "error|✖|Build completed" || true)
 test -x lean/.lake/build/bin/jsight-model
 echo setup-ok
